@@ -16,10 +16,13 @@ func main() { vhlib.Main(internCase) }
 //	char6: s -> ok,id = encodeChar6(s); dec = decodeChar6(id) when ok; plus, on a fresh Table,
 //	       Query before (q0id,q0ok), Intern (iid), Value(iid) (val), Query after (q1id,q1ok)
 //	dec:   id -> dec = decodeChar6(id); re-encode (rok, rid)
-//	seq:   ops on ONE fresh table, in order: ["i",hex] Intern, ["q",hex] Query, ["v",id] Value
+//	seq:   ops on ONE fresh table, in order: ["i",hex] Intern, ["q",hex] Query, ["v",id] Value,
+//	       ["w",b,hex,off] the caller overwrites its buffer b in place (no table call),
+//	       ["ib",b] InternBytes(buffer b), ["qb",b] QueryBytes(buffer b)
 //	conc:  progs = one list of hex strings per goroutine; all goroutines start together, each
 //	       interns its strings in order and immediately reads Value(id); afterwards the log is
-//	       read back with Value(1..max id)
+//	       read back with Value(1..max id); with bytes=true most calls go through InternBytes
+//	       on a per-goroutine scratch buffer that is scribbled over right after the call
 //	sweep: the whole inline domain below one first symbol: every string first+rest with
 //	       len(rest) <= maxrest over the 64-symbol alphabet; counts and the first failures of
 //	       round trip / sign / Table agreement
@@ -51,10 +54,33 @@ func internCase(in map[string]any) map[string]any {
 		var t intern.Table
 		ops := vhlib.List(in, "ops")
 		res := make([]any, 0, len(ops))
+		// caller-owned byte buffers for the byte-slice entry points: fixed backing arrays that
+		// are reused (overwritten in place) by every "w" op, like a lexer scratch buffer
+		var backing [4][80]byte
+		var bufs [4][]byte
 		for _, o := range ops {
 			op, _ := o.([]any)
 			kind, _ := op[0].(string)
 			switch kind {
+			case "w": // ["w", b, hex, off]: the caller overwrites buffer b in place; no table call, no result
+				b := int(vhlib.AnyNum(op[1])) % len(bufs)
+				h, _ := op[2].(string)
+				off := int(vhlib.AnyNum(op[3])) % 16
+				c := vhlib.Unhex(h)
+				if len(bufs[b]) > 0 { // scribble over all of the old content first
+					for k := range bufs[b] {
+						bufs[b][k] ^= 0x55
+					}
+				}
+				bufs[b] = backing[b][off : off+len(c)]
+				copy(bufs[b], c)
+			case "ib":
+				b := int(vhlib.AnyNum(op[1])) % len(bufs)
+				res = append(res, []any{int64(t.InternBytes(bufs[b]))})
+			case "qb":
+				b := int(vhlib.AnyNum(op[1])) % len(bufs)
+				id, ok := t.QueryBytes(bufs[b])
+				res = append(res, []any{int64(id), ok})
 			case "i":
 				h, _ := op[1].(string)
 				res = append(res, []any{int64(t.Intern(string(vhlib.Unhex(h))))})
@@ -101,6 +127,7 @@ func concCase(in map[string]any) map[string]any {
 		}
 	}
 	yield := vhlib.Bool(in, "yield")
+	useBytes := vhlib.Bool(in, "bytes")
 	var t intern.Table
 	ids := make([][]int64, len(progs))
 	vals := make([][]string, len(progs))
@@ -117,8 +144,20 @@ func concCase(in map[string]any) map[string]any {
 				}
 			}()
 			<-start
+			var scratch [80]byte
 			for k, s := range progs[g] {
-				id := t.Intern(s)
+				var id intern.ID
+				if useBytes && (k+g)%4 != 3 {
+					// through the byte-slice entry point with this goroutine's scratch buffer,
+					// which is overwritten as soon as the call has returned
+					b := scratch[:copy(scratch[:], s)]
+					id = t.InternBytes(b)
+					for j := range b {
+						b[j] ^= 0x55
+					}
+				} else {
+					id = t.Intern(s)
+				}
 				ids[g] = append(ids[g], int64(id))
 				vals[g] = append(vals[g], vhlib.Hx([]byte(t.Value(id))))
 				if yield && (k+g)%3 == 0 {
